@@ -15,7 +15,7 @@
    quantified oracles. *)
 From Verif Require Import Base.Prelude Model.CharClass Model.FoldD
   Proofs.CharClassRanges Proofs.CharClassProofs Proofs.CharClassOverlap Proofs.CharClassElab
-  Proofs.CharClassFold Proofs.CharClassFoldThm Proofs.CharClassCi Proofs.CharClassCi2 Proofs.CharClassCi3 Proofs.CharClassCi4 Proofs.CharClassCi5.
+  Proofs.CharClassFold Proofs.CharClassFoldThm Proofs.CharClassCi Proofs.CharClassCi2 Proofs.CharClassCi3 Proofs.CharClassCi4 Proofs.CharClassCi5 Gen.CharClassGen Proofs.CharClassGenCheck.
 
 (* ------------------------------------------------------------------------------------------------
    lookup_paths_agree: on a canonical class every lookup path is plain membership, for EVERY rune
@@ -361,3 +361,14 @@ Example C16_witness_case :
   (exists c, ci_class 107 107 = Ok c /\ ranges c = [(75, 75); (107, 107); (8490, 8490)]) /\
   (exists c, ci_class 97 122 = Ok c /\ ranges c = [(65, 90); (97, 122); (383, 383); (8490, 8490)]).
 Proof. split; eexists; split; vm_compute; reflexivity. Qed.
+
+(* The tables the model carries as data (lcTable with its four operation codes, the boundary lists
+   behind the ECMAScript / RE2 shorthand classes) are the tables of /repo/syntax/charclass.go as the
+   translator reads them on every run (coq/Gen/CharClassGen.v). *)
+Theorem C16_tables_are_source_tables :
+  lc_table = G_lcTable /\
+  (G_LowercaseSet = 0 /\ G_LowercaseAdd = 1 /\ G_LowercaseBor = 2 /\ G_LowercaseBad = 3) /\
+  ecma_space_ranges = ccg_pairs G_ecmaSpace /\ ecma_word_ranges = ccg_pairs G_ecmaWord /\
+  ecma_digit_ranges = ccg_pairs G_ecmaDigit /\ re2_space_ranges = ccg_pairs G_re2Space.
+Proof. exact ccg_all. Qed.
+Print Assumptions C16_tables_are_source_tables.
